@@ -35,13 +35,17 @@ def strategy(tier):
         "auto": st.booleans(),
         "prefix": st.one_of(st.none(), st.sampled_from(["pfx", "My.Proj"])),
         "order": st.one_of(st.none(), st.lists(st.integers(0, 11), min_size=1, max_size=8)),
+        # outside the carve-out (directories whose CMake files all have a non-lower-case extension, auto-exclusion on)
+        # only the closure invariant is asserted: it needs no model of which directories are processed
+        "carveout": st.sampled_from([True, True, False]),
     })
 
 
 def prepare_tree(case):
     tree = case["tree"]
-    if case["auto"]:
+    if case["auto"] and case.get("carveout", True):
         tree = T.ensure_lowercase_cmake(tree)
+    if case["auto"]:
         if not T.has_lower_cmake(tree):
             tree = {"files": dict(tree["files"], **{"top.cmake": 0}), "dirs": tree["dirs"]}
     return T.fill(tree)
@@ -159,6 +163,12 @@ def evaluate(case):
             else:
                 status[d] = "kept"
         ambiguous = any(v == "empty-after-exclusion" for v in status.values())
+        if case["auto"] and not case.get("carveout", True):
+            mixed_only = [d for d in all_dirs if any(T.is_cmake(n) for n in S.subtree(tree, d)["files"])
+                          and not T.has_lower_cmake(S.subtree(tree, d))]
+            if mixed_only:
+                ambiguous = True
+                res.labels.append("outside-carveout:mixed-case-only-dir")
         if not ambiguous:
             _, pdirs, _ = T.expected_outputs(tree, case["recursive"], case["auto"], excluded)
             want_idx = {(d + "/" if d else "") + "index.rst" for d in pdirs}
